@@ -675,6 +675,11 @@ func (x *Exec) operand(fc *frameCtx, v ssa.Value, want types.Type) Val {
 		oos("builtin as value")
 	}
 	val, ok := fc.env[v]
+	if !ok && x.lazyEnv != nil {
+		val = x.lazyEnv(v)
+		fc.env[v] = val
+		ok = true
+	}
 	if !ok {
 		oos("use of undefined SSA value %s (%T) in %s", v.Name(), v, fc.fn)
 	}
@@ -689,7 +694,7 @@ func (x *Exec) globalPtr(g *ssa.Global) Val {
 	key := "globalref:" + name
 	if !x.Assumed[key] {
 		x.Assumed[key] = true
-		x.Sc.Assert(tAnd(tLt(mkInt(0), ref), tLt(ref, x.allocInit())))
+		x.Sc.AssertTop(tAnd(tLt(mkInt(0), ref), tLt(ref, x.allocInit())))
 	}
 	if _, ok := isStruct(t); ok {
 		return ref
@@ -739,6 +744,11 @@ func (x *Exec) execInstr(fc *frameCtx, b *ssa.BasicBlock, st *State, in ssa.Inst
 	switch i := in.(type) {
 	case *ssa.DebugRef:
 	case *ssa.Alloc:
+		if p, ok := x.skipAlloc[i]; ok {
+			fc.env[i] = p
+			x.storeLoc(st, p, x.zeroVal(p.T))
+			return
+		}
 		fc.env[i] = x.newObject(st, i.Type().(*types.Pointer).Elem())
 	case *ssa.FieldAddr:
 		base := x.operand(fc, i.X, nil).(*Term)
@@ -865,7 +875,15 @@ func (x *Exec) execInstr(fc *frameCtx, b *ssa.BasicBlock, st *State, in ssa.Inst
 		oos("closure in %s", fc.fn)
 	case *ssa.Range, *ssa.Next:
 		oos("range over map/string in %s", fc.fn)
-	case *ssa.Go, *ssa.Defer, *ssa.RunDefers, *ssa.Select, *ssa.Send, *ssa.MakeChan:
+	case *ssa.RunDefers:
+		for _, bb := range fc.fn.Blocks {
+			for _, ii := range bb.Instrs {
+				if _, isD := ii.(*ssa.Defer); isD {
+					oos("defer in %s", fc.fn)
+				}
+			}
+		}
+	case *ssa.Go, *ssa.Defer, *ssa.Select, *ssa.Send, *ssa.MakeChan:
 		oos("%T in %s", in, fc.fn)
 	default:
 		oos("unsupported instruction %T (%s) in %s", in, in, fc.fn)
@@ -922,8 +940,12 @@ func (x *Exec) wrap(t *Term, ty types.Type) *Term {
 		mod := new(bigInt).Add(hi, bigOne)
 		return mkApp("mod", SInt, t, mkBig(mod))
 	}
-	oos("arithmetic on narrow signed type %s", ty)
-	return nil
+	// narrow signed: two's complement wrap-around, ((t - lo) mod 2^n) + lo
+	if t.isInt() && t.ival.Cmp(lo) >= 0 && t.ival.Cmp(hi) <= 0 {
+		return t
+	}
+	mod := new(bigInt).Add(new(bigInt).Sub(hi, lo), bigOne)
+	return tAdd(mkApp("mod", SInt, tSub(t, mkBig(lo)), mkBig(mod)), mkBig(lo))
 }
 
 func (x *Exec) execBinOp(fc *frameCtx, st *State, i *ssa.BinOp) Val {
